@@ -27,7 +27,7 @@ SpecialStreams == {<<-1>>, <<-2>>, <<-3>>}      \* _StringPool, _StringData, the
 StreamSites(img) ==
   {[site |-> "stream", name |-> n, kind |-> k] : n \in SpecialStreams \cup DOMAIN img.ts, k \in {"trunc1", "half", "extend", "remove", "empty"}}
 PoolSites(img) ==
-  {[site |-> "poolhdr", kind |-> k] : k \in {"cp1", "cp437", "longbit", "cpmax"}}
+  {[site |-> "poolhdr", kind |-> k] : k \in {"cp1", "cp437", "longbit", "cpmax", "cpascii", "cp932", "cputf8"}}
   \cup {[site |-> "poolentry", k |-> e, kind |-> k2] : e \in {1, Len(img.pool)}, k2 \in {"len+", "lenmax", "rc0", "rc+", "rcmax", "longescape"}}
   \* the long form (an escape entry carrying the high half of a 32-bit length): lengths near 2^31 and 2^32,
   \* as the first entry and after a non-empty one
@@ -35,6 +35,8 @@ PoolSites(img) ==
 PsSites == {[site |-> "ps", field |-> f, kind |-> k] :
               f \in {"bom", "version", "os", "reserved", "fmtid", "secoff", "size", "count", "propoff", "type", "strlen", "terminator", "cptype", "cpvalue"},
               k \in {"zero", "one", "huge", "unaligned"}}
+           \* the summary's code page replaced by another KNOWN page (its text then holds bytes that page does not define)
+           \cup {[site |-> "ps", field |-> "cpvalue", kind |-> k] : k \in {"ascii", "sjis", "latin1"}}
 \* the template property of the summary ("arch;languages") as text the library's own setters never write
 TemplateSites == {[site |-> "template", kind |-> k] : k \in {"nosemi", "empty", "onlysemi", "twosemi", "badlang", "gaps"}}
 OtherSites == {[site |-> "clsid", kind |-> "zero"], [site |-> "clsid", kind |-> "other"]} \cup TemplateSites
